@@ -119,6 +119,32 @@ pub fn generate(seed: u64, thorough: bool, sink: &mut Sink) -> Vec<String> {
   push("state-machines", take(crate::c17::generate(seed, thorough, &mut scratch), per / 2).iter().map(|c| crate::c17::source(c)).collect(), sink);
   push("documents", take(crate::c10::generate(seed, thorough, &mut scratch), per / 2).iter().map(|c| crate::c10::source(c)).collect(), sink);
   push("samples", SAMPLES.iter().map(|s| s.to_string()).collect(), sink);
+  // comprehensions: set and matrix comprehensions whose qualifiers (generators, filters, lets, in every order) draw on
+  // literals, variables, field accesses, subscripted names and calls, so that every kind of expression end meets every
+  // kind of qualifier start across the separating comma
+  {
+    let mut rng = Rng::new(seed ^ 0xC0A9);
+    let sources = ["{1, 2, 3}", "[1 2 3]", "s", "d.v", "d.v.w", "m[1,:]", "m[1..=2]", "t.k", "f(2)", "1..=4", "r.a[2]", "x'"];
+    let vars = ["y", "z", "k"];
+    let mut v: Vec<String> = vec![];
+    for _ in 0..(per / 2).max(120) {
+      let set = rng.chance(1, 2);
+      let nq = 1 + rng.below(3) as usize;
+      let mut quals: Vec<String> = vec![format!("{} <- {}", vars[0], rng.pick(&sources))];
+      for qi in 1..=nq {
+        quals.push(match rng.below(4) {
+          0 => format!("{} <- {}", vars[qi % 3], rng.pick(&sources)),
+          1 => format!("{} > {}", vars[0], rng.below(4)),
+          2 => format!("{} := {}", vars[(qi + 1) % 3], rng.pick(&["2", "d.v", "y + 1", "m[1]"])),
+          _ => format!("{} != {}", vars[0], rng.pick(&["z", "d.w", "3"])) });
+      }
+      let head = *rng.pick(&["y * 2", "y", "(y, z)", "y + k", "f(y)", "d.v + y"]);
+      let body = format!("{} | {}", head, quals.join(", "));
+      v.push(if set { format!("x := {{{}}}", body) } else { format!("x := [{}]", body) });
+    }
+    for s in ["d := {v: [1 2 3 4]}\nx := [y * y | y <- d.v, y > 2]", "d := {v: [1 2 3 4]}\nx := [y * k | y <- d.v, k := 2]", "d := {v: {1, 2, 3}}\nx := {y * y | y <- d.v, y > 1}"] { v.push(s.to_string()); }
+    push("comprehensions", v, sink);
+  }
   // chained subscripts on the reading side: x.a.b, t.1.2, r.a[2], x[2,:][3], in every order and of length 1-4
   {
     let mut rng = Rng::new(seed ^ 0xC8A1);
